@@ -115,7 +115,26 @@ def _work(args):
         obls.append({'concrete': conc, 'name': o.name, 'kind': o.kind, 'result': o.result, 'backend': o.backend, 'solver_s': round(o.time, 3),
                      'trace': o.trace[-10:], 'model': model_inputs(o), 'detail': o.detail,
                      'goal': str(o.goal)[:400] if o.result != 'proved' else ''})
-    return {'unit': unit, 'label': unit_label(unit), 'status': status, 'detail': detail, 'gen_s': round(gen_s, 2),
+    battery = None
+    if unit[0] == 'contract':
+        import ast as _ast
+        target, cname = unit[1].split('#')
+        c = [c for c in specs.contracts[target] if c.name == cname][0]
+        found = repo.function(target)
+        if found is not None and found[3] is None and (found[1] is None or found[1].qname.startswith('mqtt.pdu.')):
+            module, ci, fnode, outer = found
+            real = [a.arg for a in fnode.args.args]
+            def tname(t):
+                return t if isinstance(t, str) else 'Ref'
+            if all(n == 'self' or tname(t) != 'Ref' for (n, t) in c.params):
+                battery = {'target': module.name + ':' + (ci.qname.split('.')[-1] + '.' if ci else '') + fnode.name,
+                           'params': [(n, tname(t), n in real) for (n, t) in c.params],
+                           'lets': [(n, _ast.unparse(e)) for (n, e) in c.lets],
+                           'requires': [_ast.unparse(e) for e in c.requires],
+                           'raises': [(e, _ast.unparse(w) if w is not None else None) for (e, w) in c.raises],
+                           'ensures': [_ast.unparse(e) for e in c.ensures],
+                           'ensures_raise': [_ast.unparse(e) for e in c.ensures_raise], 'samples': 600}
+    return {'battery': battery, 'unit': unit, 'label': unit_label(unit), 'status': status, 'detail': detail, 'gen_s': round(gen_s, 2),
             'obligations': obls, 'covers': getattr(eng, 'covers', None), 'inlined': sorted(eng.inlined),
             'used_contracts': sorted(eng.used_contracts), 'fn_hash': getattr(eng, 'fn_hash', None),
             'notes': eng.notes}
